@@ -3,8 +3,9 @@ only if it has a plan AND a text here; everything else is listed under not_appli
 
 TECH = ("bounded symbolic execution of the real Rust code with Kani 0.68 / CBMC 6.11 (SAT back end CaDiCaL): inputs, keys, "
         "states, lengths symbolic; solver verdict over all values within the stated bounds; non-linear leaves as shared "
-        "uninterpreted functions (Ackermann) where the direct query is out of reach, tied down by leaf lemmas over the "
-        "leaf's full input space; counterexamples replayed natively against a copy of the real crate before reporting")
+        "uninterpreted functions (CBMC function applications or Ackermann logs) where the direct query is out of reach, tied "
+        "down by leaf lemmas over the leaf's full input space; loops out of reach by an inductive step on the real loop body; "
+        "counterexamples replayed natively (dev and release profile) against a copy of the real crate before reporting")
 
 BASE = ("Trusted: Kani's MIR->GOTO translation, CBMC, CaDiCaL; the oracles in /verif/refmodels (validated natively against all "
         "of the repository's vectors: 0 mismatches) and the constant tables they carry; the counted shadow transformations "
@@ -16,7 +17,7 @@ CLAIMED = ["C05", "C06", "C13", "C19"]
 
 MANIFEST_TEXT = {
     "C01": dict(
-        level="Round trips dec(enc(b))==b and enc(dec(b))==b decided per cipher type over all blocks and either all keys (public constructor, D queries: DES, Magma/Gost89 sets, XTEA, Speck, GIFT, RC5 instantiations, ...) or all expanded-key states, a superset of all keys (W queries with the round leaf uninterpreted: SM4, Camellia, Twofish, CAST-256, BelT, TDES, Threefish, ...; SPN ciphers through uninterpreted bijection pairs or through conformance of both directions to one oracle).  BelT wide block per length in a stated range.  Bounded model checking: complete over the fixed-width inputs, bounded in wide-block length and in the list of RC5/Speck/Threefish instantiations.",
+        level="Round trips dec(enc(b))==b and enc(dec(b))==b per cipher type over all blocks and either all keys (D queries) or all expanded-key states, a superset of all keys (W queries: round leaf uninterpreted, or S-box / linear layer as uninterpreted inverse pairs whose inverse lemmas are separate queries): DES, TDES x4, SM4, Camellia, ARIA, Serpent (both unroll variants), Twofish, CAST-256, Blowfish BE/LE, IDEA, RC2, XTEA, Magma, BelT, Kuznyechik (sse2, big_soft, compact_soft), RC5 (14 instantiations + 128 rounds), Speck x10, Threefish-256/512, GIFT; AES through conformance of both directions to FIPS-197 (C02) plus oracle inverse lemmas.  BelT wide block: whole function for 32..=48 octets and, for 100 / 2048 / 4096 / 2033 octets, an inductive step on the real round body with an arbitrary round counter.  Not decided: CAST5 round trip, Threefish-1024 rounds, NEON (DESIGN 10.5).",
         note=BASE + " W queries additionally rely on: any function as Feistel leaf (no lemma needed) or the leaf-inverse lemma proved as its own query.",
         technique=TECH),
     "C02": dict(
@@ -28,7 +29,7 @@ MANIFEST_TEXT = {
         note=BASE + " Configuration matrix is the list of shadow variants in the evidence; configurations that do not exist in the source are outside the claim.",
         technique=TECH),
     "C04": dict(
-        level="For every cipher type: multi-block in-place, multi-block b2b and single b2b calls equal per-block in-place calls on an arbitrary state for every block count n in 0..=2 (parallel width 1) — all contents symbolic, separate input unchanged, output blocks >= n and mismatched-length outputs untouched.  AES-NI 9-wide path: n = 10 (batch + tail; thorough: 8, 9, 19) at a symbolic buffer offset 0..15 with guard bytes; fixslice and Kuznyechik/ARMv8 parallel paths per their harness lists.",
+        level="Per cipher type (parallel width 1): multi-block in-place, multi-block b2b and single b2b calls equal per-block in-place calls on an arbitrary state for every block count n in 0..=2 -- all contents symbolic, separate input unchanged, blocks >= n and mismatched-length outputs untouched (table-based ciphers with the non-linear leaf uninterpreted).  AES-NI 9-wide path: n = 10 (batch + tail; thorough 8, 9, 19, AES-256), output block i for a SYMBOLIC lane i, in place at a symbolic buffer offset 0..15 with guard bytes and b2b with the input unchanged; fixslice batches (last lane quick, symbolic lane thorough); ARMv8 model n = 3, 21 (quick), 22 / 20 / 18 (thorough); Kuznyechik sse2 4-wide and big_soft 3-wide batches (+ tail thorough).",
         note=BASE + " Block counts are enumerated (bounded), contents are universal; counts above the bound are outside the claim (the iteration code is periodic in the parallel width).",
         technique=TECH),
     "C05": dict(
@@ -46,15 +47,15 @@ MANIFEST_TEXT = {
         level="Serpent (key length symbolic 16..=32, both unroll variants), Twofish (16/24/32) and CAST-256 (five key sizes) == their specifications for all keys and blocks: leaf lemmas (bitsliced S-box circuits, linear transform, q-boxes/MDS/RS/h/g, quads/octave) + wiring with the leaves uninterpreted.",
         note=BASE, technique=TECH),
     "C09": dict(
-        level="Blowfish/BlowfishLE, CAST5, IDEA, RC2, XTEA == their specifications: round functions on arbitrary states (D), key schedules vs oracle (Blowfish with the inner encrypt uninterpreted per call index, key length symbolic 4..=56; RC2 key and effective lengths symbolic within the tier bound; CAST5 per stated split), leaf lemmas for IDEA multiplication modulo 65537.",
+        level="Blowfish / BlowfishLE: round function leaf, data path and round trips on arbitrary P/S (quick), key expansion for key lengths 0..=57 under a lockstep stub on the inner encrypt (thorough).  IDEA: multiplication and inverse leaves, key expansion, data path, all keys (quick).  XTEA: direct conformance, all keys and blocks (quick).  RC2: data path on an arbitrary round-key state, constructor wiring, key expansion for every effective length T1 of stated ranges with fixed keys (the effective-length mask is data independent).  CAST5: constructor wiring (padding, 12/16-round flag).  NOT decided by a finished query: RC2 key expansion for symbolic keys, CAST5 rounds and half key schedule (DESIGN 10.5); their oracles are validated natively against all repository vectors.",
         note=BASE + " Blowfish's 521 chained self-modifying encryptions are decided under the call-indexed abstraction (DESIGN 2.3).",
         technique=TECH),
     "C10": dict(
-        level="RC5 (listed W/R/B instantiations), the ten Speck variants, Threefish-256/512/1024 (tweak, byte vs u64 entry points, zero-tweak constructor) and GIFT-128 == their specifications for all keys and blocks, by D queries where they finish and L+W otherwise.",
+        level="RC5: word operations for all five word types, key-to-words and table initialisation for 15 instantiations (odd key lengths, b = 0, r = 0 included), full key expansion for 8/16-bit words, rounds and round trips on arbitrary key tables for 14 instantiations and for 128 rounds; Speck x10 (key schedule, rounds, round trips); Threefish-256/512 (key schedule incl. tweak and both entry points, rounds on arbitrary subkey tables), Threefish-1024 key schedule and MIX only; GIFT-128 (quintuple decomposition against bit-level rounds, all keys).  Not decided: RC5 key mixing at real round counts for 32/64/128-bit words, Threefish-1024 rounds.",
         note=BASE + " RC5 admits 5 x 256 x 256 type-level instantiations; a listed dozen are checked.",
         technique=TECH),
     "C11": dict(
-        level="For every cipher type new_from_slice(&buf[..len]) with buf (300 bytes) and len (0..=300) symbolic is Ok exactly for the accepted lengths and Err otherwise without panicking; new(&key) and new_from_slice(&key) give the same state; padded/short-key and Rc2 effective-length constructor pairs by state equality.",
+        level="Length contract for every cipher type: new_from_slice on a slice of symbolic length 0..=300 is Ok exactly for the accepted lengths and Err otherwise, without panicking (types with the default implementation: zero key content, the verdict depends on the length only; the seven crates that override it: symbolic content, heavy key schedules replaced by stand-ins injective in what they are handed).  Constructor pairs by state equality for the overriding crates (new vs new_from_slice; Serpent / CAST5 / CAST6 short key vs explicitly padded key; Rc2 slice vs effective length 8 x len).",
         note=BASE + " Lengths above 300 take the same comparison (usize compare) and are not explored; Blowfish/CAST5 key schedules are stubbed out in the verdict-only harnesses.",
         technique=TECH),
     "C12": dict(
@@ -65,11 +66,11 @@ MANIFEST_TEXT = {
         note=BASE + " NIST weak-key list carried by the oracle, validated structurally (odd parity; 4/12/48 keys with 1/2/4 distinct subkeys).",
         technique=TECH),
     "C14": dict(
-        level="bcrypt primitives: each of salted_expand_key, bc_expand_key, bc_encrypt, bc_init_state decided as ONE step from an arbitrary pre-state against the eksblowfish oracle step (salt and key lengths symbolic within bounds, inner encrypt uninterpreted per call index); induction over the step covers call sequences of any length.",
+        level="bc_init_state and bc_encrypt (arbitrary state) against the reference; salted_expand_key / bc_expand_key / zero-salt equivalence in a data-flow form at fixed salt and key lengths (12-, 16-, 5-byte salts, 72-, 8-, 57-byte keys): the inner encrypt replaced on both sides by a recording stand-in, arguments of all 521 calls and the final state compared (quick); lockstep forms against the eksblowfish step machine from an arbitrary pre-state with symbolic key / salt lengths (thorough, 20-30 GB).  One step from an arbitrary pre-state covers call sequences of any length.",
         note=BASE + " Bounds on salt/key length as stated in the evidence.",
         technique=TECH),
     "C15": dict(
-        level="Sequential histories: frame harness per type (encrypt/decrypt on an arbitrary state leave every byte of the instance unchanged) + AES autodetect history harness including the first-use CPU detection; with determinism of symbolic execution this gives history independence for sequential histories of any length.  Thread interleavings are NOT decided (Kani is sequential): threads = 1.",
+        level="Sequential histories (threads = 1): per type, op(x); op(y); op(x) on an arbitrary state gives equal first and third results and leaves every byte of the instance unchanged; mixed enc/dec history against a pristine instance; construction history new(k2); new(k1); new(k2); new(k3); new(k1) (process-wide state written by construction); AES autodetect history including the first use that runs CPU detection.  A textual listing of every static mut / atomic / cell construct of the crates guards the 'no interior mutability' premise.  Thread interleavings are NOT decided (Kani is sequential).",
         note=BASE + " The 'all thread interleavings' part of the quantifier is outside the technique and stated as such.",
         technique=TECH),
     "C16": dict(
@@ -77,17 +78,17 @@ MANIFEST_TEXT = {
         note=BASE + " Copies the compiler may leave in registers/stack are outside MIR-level analysis.",
         technique=TECH),
     "C17": dict(
-        level="aes::hazmat::{cipher_round, equiv_inv_cipher_round, mix_columns, inv_mix_columns} == FIPS-197 round transformations for all 2^128 blocks x 2^128 keys with CPUID symbolic (intrinsics arm with concrete SDM models, fixslice arm with nothing abstracted); par forms == eight single calls.",
+        level="aes::hazmat::{cipher_round, equiv_inv_cipher_round} == the FIPS-197 round transformations for all 2^128 blocks x 2^128 keys with CPUID symbolic (intrinsics arm with concrete Intel-SDM models, fixslice arm with the real S-box circuits); mix_columns / inv_mix_columns per arm (intrinsics arm: three AESIMC, with the oracle lemma InvMixColumns^3 == MixColumns; fixslice: structure-aligned byte forms tied to the FIPS matrices by model lemmas) and mutual inverses by additivity + single-byte basis; 8-block forms == eight single rounds with the respective keys; four fixslice builds and the ARMv8 model.",
         note=BASE, technique=TECH),
     "C18": dict(
-        level="belt_wblock_enc/dec == STB 34.101.31 wide block for every length in the stated range (incl. non-multiples of 16) and all keys/contents with belt_block_raw uninterpreted; inverse both orders; len < 32 returns the error and leaves the buffer unchanged.",
+        level="belt_wblock_enc/dec == STB 34.101.31 6.2 for 32, 33, 47, 48 octets (whole function, all keys and contents, belt-block uninterpreted) and per ROUND for 100, 2048 (quick), 4096 and 2033 octets (thorough): the real round body with an arbitrary counter on an arbitrary buffer equals the standard's round, and the decryption round inverts the encryption round (induction over the rounds gives the whole function; that the loops visit 1..=2n in order is decided at the short lengths); fewer than 32 octets: error and buffer untouched.",
         note=BASE + " Lengths above the stated bound are outside the claim.",
         technique=TECH),
     "C19": dict(
         level="Per type: Debug on an arbitrary state equals Debug on the zero-bytes instance (so it cannot depend on key material) and starts with the type identifier; AlgorithmName contains the algorithm name and every type-level parameter (key size, variant, byte order, S-box name, RC5 w/r/b).",
         note=BASE, technique=TECH),
     "C20": dict(
-        level="Dev-profile obligations (overflow, bounds, unwrap, debug_assert, shift, division) are proof obligations of every harness; per type, encrypt/decrypt on an arbitrary valid state and block are decided to return; leaf arithmetic named by the property is run on fully symbolic inputs; since no overflow check or debug assertion can fire, dev and release profiles compute the same function.",
+        level="Dev-profile obligations (overflow, bounds, unwrap, debug_assert, shift) are proof obligations of every harness of every property.  Quick tier: per-type totality with nothing abstracted for the table-based ciphers, AES soft, RC5 with 128 rounds, BelT wide-block round at 2048 octets with the counter reaching 256, Kuznyechik key schedules; thorough tier: every harness that names C20 (all types, all backends).  Since no overflow check or debug assertion can fire, dev and release profiles compute the same function; counterexamples are replayed in both profiles.",
         note=BASE + " Allocation/stack exhaustion and anything below MIR are outside.",
         technique=TECH),
 }
